@@ -267,6 +267,11 @@ class MockCuda:
     def synchronize(self):
         pass
 
+    class atomic:
+        @staticmethod
+        def add(array, idx, value):
+            array[idx] += value
+
     def grid(self, dims):
         _ = dims  # silence "not used" warning
         return self.x, self.y
